@@ -391,6 +391,9 @@ func genProvision(r *rand.Rand, t core.Tier) any {
 		ext.UntrackedAntiPods = 1 + r.IntN(2)
 	}
 	if r.Float64() < 0.2 {
+		ext.Overlays = genOverlays(r, s)
+	}
+	if r.Float64() < 0.2 {
 		ext.Buffers = genBuffers(r, s)
 		if r.Float64() < 0.5 {
 			ext.DefaultSpread = true
@@ -498,6 +501,7 @@ func provLabels(raw json.RawMessage, impl any) []string {
 	}
 	l = append(l, draLabels(in.Ext.DRA)...)
 	l = append(l, bufferLabels(in.Ext.Buffers, in.Ext.DefaultSpread)...)
+	l = append(l, overlayLabels(in.Ext.Overlays)...)
 	if in.Ext.UntrackedAntiPods > 0 {
 		l = append(l, "anti-affinity-pod-event-before-node-event")
 	}
@@ -547,6 +551,11 @@ func shrinkProv(raw json.RawMessage) []any {
 		if x.Scn.DaemonSets == nil {
 			x.Scn.DaemonSets = []world.DaemonSet{}
 		}
+		out = append(out, x)
+	}
+	for _, c := range core.ShrinkList(in.Ext.Overlays) {
+		x := in
+		x.Ext.Overlays = c
 		out = append(out, x)
 	}
 	for _, c := range core.ShrinkList(in.Ext.Buffers) {
